@@ -160,6 +160,8 @@ class Kernel:
         self.get_scopes: dict[int, Any] = {}            # label of a suspended async lookup -> its cancel scope
         self.ctxtd_fn: Any = None
         self.fns: dict[int, Any] = {}
+        self.comp_ctx: dict[int, int] = {}              # id of a component's own context -> the context of its block
+        self.comp_keep: list[Any] = []
         self.freed_ids: set[int] = set()                # addresses of contexts that were dropped (`forget`)
         self.listen_scopes: dict[int, Any] = {}
         self.deferred: dict[int, tuple[Any, dict[str, Any]]] = {}   # lookups whose coroutine exists but has not been awaited
@@ -335,6 +337,8 @@ class Kernel:
     def name_of(self, ctx: Any) -> str:
         if ctx is None:
             return "None"
+        if id(ctx) in self.comp_ctx:
+            return str(self.comp_ctx[id(ctx)])      # a component's own context stands for the context its tree was started in
         return str(self.ctx_ids.get(id(ctx), "?"))
 
     def exc_out(self, e: BaseException, want: tuple[Any, str] | None = None) -> list[str]:
@@ -514,7 +518,8 @@ class Kernel:
                   [p["name"] for p in params if p["kind"] == "normal" and p["dflt"] == "none"]}
         c = None
         try:
-            c = self.ctx_ids.get(id(ac.current_context()))
+            cc = ac.current_context()
+            c = self.ctx_ids.get(id(cc), self.comp_ctx.get(id(cc)))
         except ac.NoCurrentContext:
             pass
         self.inject_ctx[cmd.get("i", -1)] = c
@@ -716,6 +721,26 @@ class Worker:
             if res is not None:
                 kern.results[cmd["i"]] = res
 
+    async def frame_in_component(self, cid: int) -> dict[str, Any] | None:
+        """The operations of this block are done from the start() of a (root) component started in it: the task's
+        current context is that component's own context, a wrapper that hands every call on to the block's context."""
+        from asphalt.core import Component, start_component
+
+        worker = self
+        got: dict[str, Any] = {}
+
+        class FrameComponent(Component):
+            async def start(self) -> None:
+                from asphalt.core import current_context
+
+                mine = current_context()
+                worker.kern.comp_ctx[id(mine)] = cid
+                worker.kern.comp_keep.append(mine)      # (kept alive: the address must not be reused within the case)
+                got["exit"] = await worker.frame(cid)
+
+        await start_component(FrameComponent, timeout=None)
+        return got.get("exit")
+
     async def block(self, cmd: dict[str, Any]) -> None:
         kern = self.kern
         cid = cmd["c"]
@@ -738,7 +763,10 @@ class Worker:
                         exitcmd = {"i": -2, "c": cid, "end": {"k": "cancelled"}}
                         await checkpoint()
                         kern.tdlog.append("NOT-CANCELLED")
-                    exitcmd = await self.frame(cid)
+                    if cmd.get("comp"):
+                        exitcmd = await self.frame_in_component(cid)
+                    else:
+                        exitcmd = await self.frame(cid)
                     n0 = len(kern.tdlog)
                     assert exitcmd is not None
                     if exitcmd.get("cancelAt") is not None and exitcmd["end"]["k"] != "cancelled":
